@@ -362,7 +362,10 @@ def gr (o : GrowthOracle) (margin : Bool) (x : Raw) : Tri × Rat × Rat :=
     let smallInts := decide ((x.cur : Rat) < pow2 53) && decide ((x.avg : Rat) < pow2 53)
     let el :=
       if g ≥ o.r * (1 + eps) then Tri.yes
-      else if g == o.r && o.reprF && smallInts then Tri.yes
+      -- usage / average equal to the configured decimal is decisive ("ratios act at exactly the configured value"):
+      -- with exact int -> double conversions the correctly rounded quotient narrows to the same float as the
+      -- parsed decimal, so the unchanged code agrees; no rounding margin is granted here
+      else if g == o.r && smallInts then Tri.yes
       else if g < o.r * (1 - eps) then Tri.no
       else Tri.maybe
     (el, g * (1 - eps), g * (1 + eps))
